@@ -60,7 +60,10 @@ def one_case(ctx, kind, inp, inp2, user_seed, check_model=True):
             fault_k = rng.randrange(0, 5 * max(1, len(t0)))
         if fault_k is not None:
             from .. import faults
-            un = faults.install({}, {"op": fault_k, "mode": "exn", "scope": "createoutput"})
+            # half of the obstacles hit the creation of a file (the j-th open), the others any operation
+            spec = ({"kind": "open", "nth": fault_k % max(1, len(t0)), "mode": "exn", "scope": "createoutput"} if user_seed % 10 == 3
+                    else {"op": fault_k, "mode": "exn", "scope": "createoutput"})
+            un = faults.install({}, spec)
             try:
                 with presv.Capture() as cap:
                     ret = presv.run_kind(kind, out, inp2)
